@@ -56,6 +56,9 @@ class ProgGen:
         self.files = {}
         self.nsub = 0
         self.nsp = 0
+        self.sp_files = {}        # build files of subprojects: always under the root's subprojects/
+        self.sp_counter = [0]     # shared by nested generators: subproject names are global
+        self.sp_depth = 0
         self.err = None           # pending error statement to inject (text lines) or None
         self.err_done = False
         self.err_p = 0
@@ -625,20 +628,23 @@ class ProgGen:
                 body += self.stmt(env, 0, '', sub)
             self.files['/'.join(sub + ['meson.build'])] = '\n'.join(body) + '\n'
             return ["subdir('%s')" % dname] + self.msg(self.gen_int(env, 2), ind)
-        if k == 19 and not ind and self.nsp < 2 and not path[:1] == ['subprojects']:
+        if k == 19 and not ind and self.nsp < 2 and self.sp_depth < 2 and self.sp_counter[0] < 3:
             self.nsp += 1
-            name = 'sp%d' % self.nsp
+            self.sp_counter[0] += 1
+            name = 'sp%d' % self.sp_counter[0]
             g = ProgGen(self.rng, self.max_depth)
             g.tag = self.tag + 500
             g.nvar = self.nvar + 500
+            g.sp_files, g.sp_counter, g.sp_depth = self.sp_files, self.sp_counter, self.sp_depth + 1
             senv = {}
             body = ["project('%s')" % name]
             for _ in range(self.rng.randint(2, 6)):
-                body += g.stmt(senv, 0, '', ['subprojects', name])
+                body += g.stmt(senv, 0, '', [])
             self.tag = g.tag
-            self.files['subprojects/%s/meson.build' % name] = '\n'.join(body) + '\n'
+            self.nvar = max(self.nvar, g.nvar)
+            self.sp_files['subprojects/%s/meson.build' % name] = '\n'.join(body) + '\n'
             for f, c in g.files.items():
-                self.files['subprojects/%s/%s' % (name, f)] = c
+                self.sp_files['subprojects/%s/%s' % (name, f)] = c
             lines = ["%s = subproject('%s')" % (name, name)]
             for vn, t in list(senv.items())[:4]:
                 mine = self.fresh('g')
@@ -647,6 +653,8 @@ class ProgGen:
                 lines += self.msg(self.var(env, mine), ind)
             lines += self.msg("%s.get_variable('nope', %s)" % (name, self.gen_int(env, 2).at(2)), ind)
             lines += self.msg("is_variable('%s')" % (list(senv) + ['zz'])[0], ind)
+            if self.r() < 0.3:
+                lines += self.msg("subproject('%s').found()" % name, ind)
             return lines
         if k == 20:
             return ['%sassert(%s == %s, \'same\')' % (ind, n, n) for n in list(env)[:1]] or self.msg('1', ind)
@@ -691,6 +699,7 @@ class ProgGen:
         for n in list(env)[:6]:
             lines += self.msg(self.var(env, n), '')
         self.files['meson.build'] = '\n'.join(lines) + '\n'
+        self.files.update(self.sp_files)
         return dict(self.files)
 
 
@@ -845,6 +854,23 @@ def corpus():
     c('subproject-blank-messages', "sp = subproject('s1')\nmessage('#z', '\\n', '$')\n",
       subprojects__s1__meson_build="project('s1')\nmessage('#a', '\\n', '$')\nx = {'a': 1}.values()\nmessage('#b', '', '$')\nmessage('#c', ' ', '$')\n"
                                    "y = 1.to_string(fill: 2)\nmessage('#d', '\\n\\n', ' \\t', '$')\nmessage('#e', x, y, '$')\nmessage('#f', ' a \\n b \\n', '$')\n")
+    c('nested-subdirs-share-store', "x = [1]\nsubdir('a')\nmessage('#1', x, y, z, '$')\nsubdir('a/b')\n",
+      a__meson_build="y = x + [2]\nsubdir('b')\nx += 9\n", a__b__meson_build="z = y + [3]\nx += 8\nsubdir('c')\n", a__b__c__meson_build="message('#c', x, y, z, '$')\n")
+    c('subdir-sibling-from-nested', "subdir('a')\nsubdir('b')\n", a__meson_build="subdir('b')\nv = 1\n", a__b__meson_build="message('#ab', '$')\n", b__meson_build="message('#b', v, '$')\n")
+    c('subdir-escape-parent', "subdir('a')\n", a__meson_build="subdir('../b')\n", b__meson_build="x = 1\n")
+    c('subdir-error-location-nested', "subdir('a')\n", a__meson_build="x = 1\nsubdir('b')\n", a__b__meson_build="y = 2\n\nz = x + y + 'q'\n")
+    c('subdir-visited-after-error-free', "subdir('a')\nsubdir('a/b')\n", a__meson_build="subdir('b')\n", a__b__meson_build="x = 1\n")
+    c('subproject-of-subproject', "a = subproject('s1')\nmessage('#1', a.get_variable('v'), a.get_variable('w'), is_variable('inner'), '$')\nb = subproject('s2')\nmessage('#2', b.get_variable('inner'), '$')\nc = inner\n",
+      subprojects__s1__meson_build="project('s1')\ns = subproject('s2')\nv = s.get_variable('inner') + 1\nw = is_variable('inner')\nsubdir('d')\n",
+      subprojects__s1__d__meson_build="message('#d', v, w, '$')\nw = [w, is_variable('s')]\n",
+      subprojects__s2__meson_build="project('s2')\ninner = 41\nmessage('#s2', is_variable('v'), is_variable('s'), '$')\n")
+    c('subproject-sees-no-parent-vars', "secret = 1\nsubproject('s1')\n", subprojects__s1__meson_build="project('s1')\nmessage('#0', is_variable('secret'), '$')\nx = secret\n")
+    c('subproject-subdir-own-tree', "subdir('d')\nsubproject('s1')\nsubdir('e')\n", d__meson_build="message('#rd', '$')\n", e__meson_build="message('#re', '$')\n",
+      subprojects__s1__meson_build="project('s1')\nsubdir('d')\nsubdir('d')\n", subprojects__s1__d__meson_build="message('#sd', '$')\n")
+    c('subproject-subdir-missing', "subdir('d')\nsubproject('s1')\n", d__meson_build="message('#rd', '$')\n", subprojects__s1__meson_build="project('s1')\nsubdir('d')\n")
+    c('subproject-cached-second-call', "a = subproject('s1')\nb = subproject('s1')\nmessage('#1', a.get_variable('v'), b.get_variable('v'), '$')\n", subprojects__s1__meson_build="project('s1')\nmessage('#once', '$')\nv = 3\n")
+    c('subproject-method-errors', "a = subproject('s1')\nmessage('#1', a.found(), a.get_variable('v', 0), '$')\nx = a.get_variable()\n", subprojects__s1__meson_build="project('s1')\n")
+    c('subproject-object-in-values', "a = subproject('s1')\nl = [a]\nmessage('#1', l.length(), '$')\nmessage('#2', l, '$')\n", subprojects__s1__meson_build="project('s1')\n")
     c('adjacent-strings', "message('#1', 'a' 'b', '$')")
     c('unclosed-call', "message('#1', 'abc', '$'")
     c('plusassign-type', "x = 3\nx += 'a'")
@@ -1406,6 +1432,30 @@ def laws(rng, thorough=False):
     L.append({'law': 'subproject-variable-not-in-scope', 'files': P("sp = subproject('q')\nmessage('#1', 1, '$')\ny = v\n", subprojects__q__meson_build="project('q')\nv = 7\n"),
               'expect': {'kind': 'fails', 'line': 4, 'file': 'meson.build', 'values': {'1': 1}}})
 
+    # --- nested scoping: subdirs of subdirs share one store; subprojects of subprojects are isolated
+    L.append({'law': 'nested-subdirs-one-store',
+              'files': P("x = [1]\nsubdir('a')\nmessage('#1', x, y, z, '$')\n", a__meson_build="y = x + [2]\nsubdir('b')\nx += 9\n",
+                         a__b__meson_build="z = y + [3]\nx += 8\nmessage('#b', x, '$')\n"),
+              'expect': {'kind': 'values', 'values': {'b': [1, 8], '1': '[1, 8, 9] [1, 2] [1, 2, 3]'}, 'exact': True}})
+    L.append({'law': 'subproject-of-subproject-isolated',
+              'files': P("top = 1\na = subproject('s1')\nmessage('#1', a.get_variable('v'), is_variable('inner'), is_variable('v'), '$')\n",
+                         subprojects__s1__meson_build="project('s1')\ns = subproject('s2')\nv = s.get_variable('inner') + 1\nmessage('#a', is_variable('inner'), is_variable('top'), '$')\n",
+                         subprojects__s2__meson_build="project('s2')\ninner = 41\nmessage('#b', is_variable('v'), is_variable('top'), is_variable('s'), '$')\n"),
+              'expect': {'kind': 'values', 'values': {'b': 'false false false', 'a': 'false false', '1': '42 false false'}, 'exact': True}})
+    L.append({'law': 'subdir-twice-fails', 'files': P("subdir('a')\nmessage('#1', 1, '$')\nsubdir('a')\n", a__meson_build="x = 1\n"),
+              'expect': {'kind': 'fails', 'line': 4, 'file': 'meson.build', 'values': {'1': 1}}})
+    L.append({'law': 'subdir-twice-via-nested-path-fails', 'files': P("subdir('a')\nsubdir('a/b')\n", a__meson_build="subdir('b')\n", a__b__meson_build="x = 1\n"),
+              'expect': {'kind': 'fails', 'line': 3, 'file': 'meson.build'}})
+    L.append({'law': 'subdir-cannot-leave-the-tree', 'files': P("subdir('a')\n", a__meson_build="message('#1', 1, '$')\nsubdir('../b')\n", b__meson_build="message('#2', 1, '$')\n"),
+              'expect': {'kind': 'fails', 'line': 2, 'file': 'a/meson.build', 'values': {'1': 1}, 'absent': ['2']}})
+    L.append({'law': 'subdir-absolute-fails', 'files': P("subdir('/')\n"), 'expect': {'kind': 'fails', 'line': 2}})
+    L.append({'law': 'subdir-error-located-in-its-file', 'files': P("subdir('a')\n", a__meson_build="x = 1\nsubdir('b')\n", a__b__meson_build="y = 2\n\nz = x + y + 'q'\n"),
+              'expect': {'kind': 'fails', 'line': 3, 'file': 'a/b/meson.build'}})
+    L.append({'law': 'subproject-variable-of-nested-not-in-scope',
+              'files': P("a = subproject('s1')\nb = subproject('s2')\nmessage('#1', b.get_variable('inner'), '$')\nc = inner\n",
+                         subprojects__s1__meson_build="project('s1')\ns = subproject('s2')\n", subprojects__s2__meson_build="project('s2')\ninner = 41\nmessage('#once', 1, '$')\n"),
+              'expect': {'kind': 'fails', 'line': 5, 'file': 'meson.build', 'values': {'once': 1, '1': 41}}})
+
     # --- strict typing: no implicit conversion (a sample of the table; the full table is in the
     #     correspondence stream)
     strict = ["1 + 'a'", "'a' + 1", "'1' == 1", "true == 'true'", "[1] == 1", "1 < 'a'", "'a' * 2", "not 1", "-'a'", "1 and true",
@@ -1519,3 +1569,80 @@ def prim_exprs(rng, n):
         f = forms[i % len(forms)] if i < 3 * len(forms) else rng.choice(forms)
         out.append(('prim%d' % i, f()))
     return out
+
+
+# ---------------------------------------------------------------------------------- documented API
+def documented_api(repo):
+    """the documented methods of the elementary types and the core functions, read from the
+    reference manual sources of the tree under test (docs/yaml) -> {(type, method): doc}"""
+    import glob, os, re
+    api = {}
+    for f in sorted(glob.glob(os.path.join(repo, 'docs', 'yaml', 'elementary', '*.y*ml'))):
+        txt = open(f, encoding='utf-8').read()
+        m = re.search(r'^name:\s*(\w+)', txt, re.M)
+        if not m:
+            continue
+        ty = m.group(1)
+        for mm in re.finditer(r'^- name:\s*(\w+)', txt, re.M):
+            api[(ty, mm.group(1))] = os.path.basename(f)
+    for fn in ('range', 'set_variable', 'get_variable', 'is_variable', 'unset_variable', 'assert', 'message', 'error', 'subdir', 'subproject'):
+        if os.path.exists(os.path.join(repo, 'docs', 'yaml', 'functions', fn + '.yaml')):
+            api[('function', fn)] = fn + '.yaml'
+    return api
+
+
+# what coq/Eval models (Methods.v str_method/int_method/bool_method/arr_method/dict_method, Interp.v call_function)
+MODELLED = {
+    'str': ['format', 'replace', 'strip', 'to_lower', 'to_upper', 'to_int', 'contains', 'startswith', 'endswith', 'substring',
+            'split', 'splitlines', 'join', 'underscorify', 'version_compare'],
+    'array': ['contains', 'get', 'slice', 'length', 'flatten'],
+    'dict': ['has_key', 'get', 'keys', 'values'],
+    'int': ['is_even', 'is_odd', 'to_string'],
+    'bool': ['to_int', 'to_string'],
+    'function': ['range', 'set_variable', 'get_variable', 'is_variable', 'unset_variable', 'assert', 'message', 'error', 'subdir', 'subproject'],
+}
+RECEIVERS = {'int': ['(7)', '(-12)'], 'bool': ['true', 'false'], 'str': ["'a b,c'", "' 12 '"],
+             'array': ["['x', ['y'], 'x']", '[3, 1, 2]'], 'dict': ["{'k': 'v', 'a': 1}", '{}']}
+ARG_SAMPLES = ["'ab'", "''", "'k'", '1', '0', '-1', 'true', "['x']", '[]', '[1, 2]', "{'k': 'v'}", 'range(2)']
+KW_NAMES = ['fill', 'format', 'step', 'bogus']
+KW_VALUES = ['2', '-1', "'hex'", "'zz'", 'true', '[]']
+
+
+def api_rows(rng, api, per_method_three=12):
+    """every documented method x every arity 0..2 over one sample of each type (and a sample of
+    3-argument calls) x every keyword name any core method takes -> [((type, method), ident, lines)]"""
+    rows = []
+    for (ty, name) in sorted(api):
+        argsets = [[]] + [[a] for a in ARG_SAMPLES] + [[a, b] for a in ARG_SAMPLES for b in ARG_SAMPLES]
+        argsets += [[rng.choice(ARG_SAMPLES) for _ in range(3)] for _ in range(per_method_three)]
+        kwsets = [''] * len(argsets)
+        for kn in KW_NAMES:
+            for kv in KW_VALUES:
+                argsets.append([] if rng.random() < 0.7 else [rng.choice(ARG_SAMPLES)])
+                kwsets.append('%s: %s' % (kn, kv))
+        argsets.append([])
+        kwsets.append("fill: 3, format: 'oct'")
+        argsets.append(['0', '2'])
+        kwsets.append('step: 2')
+        argsets.append([])
+        kwsets.append('kwargs: {}')
+        for args, kw in zip(argsets, kwsets):
+            a = ', '.join(args + ([kw] if kw else []))
+            if ty == 'function':
+                if name in ('subdir', 'subproject'):
+                    continue          # need build files: covered by the corpus and the random programs
+                if name == 'range':
+                    lines = ['x = 0', 'foreach i : range(%s)' % a, '  x += i', 'endforeach']
+                elif name in ('set_variable', 'assert', 'message', 'unset_variable'):
+                    lines = (['uv = 1'] if name == 'unset_variable' else []) + ['%s(%s)' % (name, a), 'x = 1']
+                elif name == 'error':
+                    lines = ['if false', '  error(%s)' % a, 'endif', 'x = [%s]' % ', '.join(args)] if not kw else ['error(%s)' % a, 'x = 1']
+                else:
+                    lines = ['gv = 5', 'x = %s(%s)' % (name, a)]
+                rows.append(((ty, name), '%s(%s)' % (name, a), lines))
+            else:
+                for r in RECEIVERS.get(ty, []):
+                    if len(args) == 2 and rng.random() < 0.5:
+                        continue      # half of the 2-argument grid per receiver
+                    rows.append(((ty, name), '%s.%s(%s)' % (r, name, a), ['x = %s.%s(%s)' % (r, name, a)]))
+    return rows
